@@ -530,6 +530,10 @@ def _metadata_round(p, wd, fails, counter, tag):
         pf.version = p["version"]
     path = os.path.join(wd, "plt")
     gen.write_plotfile(path, pf)
+    if p.get("large_offsets"):
+        # binary files larger than 2 and 4 GiB (sparse): byte offsets that do not fit 32 bits
+        from .rt_menu import _spread_file
+        _spread_file(pf, path, pf.L)
     # expected field keys: repeated names are renamed name_2, name_3, ...
     keys = []
     for nm in names:
